@@ -985,7 +985,14 @@ impl rustc_driver::Callbacks for Cb {
                 }
                 if !hir_want.is_empty() {
                     let p = cx.path(did);
-                    if hir_want.iter().any(|w| *w == p)
+                    // literal tables: every const/static whose type is an array (or a
+                    // reference to one/a slice) is dumped, plus the requested items
+                    let is_table = matches!(kind, DefKind::Const { .. } | DefKind::Static { .. }) && {
+                        let ty = tcx.type_of(did).instantiate_identity().skip_norm_wip();
+                        let inner = ty.peel_refs();
+                        inner.is_array() || inner.is_slice()
+                    };
+                    if (is_table || hir_want.iter().any(|w| *w == p))
                         && matches!(
                             kind,
                             DefKind::Const { .. }
